@@ -245,6 +245,75 @@ func runC12(c *Ctx) {
 	}
 	c.check(push != nil && okPop, "DLV-SCANNERSTACK", c.fname(f), "scanner pushed for the run is popped by a deferred function", f.Pos(), "append … defer scanners = scanners[:len-1]", "the scanner stack is not restored on every exit of executeScanner: a later Execute call (or readstring) would use a stale scanner")
 
+	// ---- interpreter state persists across Execute calls: the entry points touch only per-run fields
+	perRun := map[string]bool{"DSC": true, "scanners": true, "CheckStart": true}
+	for _, name := range []string{"Execute", "ExecuteString", "executeScanner"} {
+		g := c.methodOpt("postscript", "Interpreter", name)
+		if g == nil {
+			continue
+		}
+		var bad []string
+		eachInstr(g, func(ins ssa.Instruction) {
+			if st, ok := ins.(*ssa.Store); ok {
+				if base, fld, ok := fieldAddrOf(st.Addr); ok && pointsTo(base.Type(), ia.T) && !perRun[fld.Name()] {
+					bad = append(bad, fld.Name()+" at "+c.pos(st.Pos()))
+				}
+			}
+		})
+		c.check(len(bad) == 0, "DLV-PERSIST", c.fname(g), "entry point leaves stacks, open procedure bodies and dictionaries untouched", g.Pos(), "stores only to per-run fields (DSC, scanners, CheckStart)",
+			c.fname(g)+" resets or rewrites interpreter state that must persist across Execute calls: "+joinMax(bad, 3)+"; feeding a program in several calls is then not equivalent to one call")
+	}
+
+	// ---- the stored read error is consulted only where EOF is handled explicitly
+	nSticky := 0
+	for _, f := range c.modFuncs {
+		if f == refill {
+			continue
+		}
+		eachInstr(f, func(ins ssa.Instruction) {
+			ld, ok := ins.(*ssa.UnOp)
+			if !ok || ld.Op != token.MUL || !isFieldAddr(ld.X, scannerT, "err") {
+				return
+			}
+			nSticky++
+			handled := false
+			why := ""
+			// (a) compared with io.EOF somewhere
+			var vals []ssa.Value
+			vals = append(vals, ld)
+			for i := 0; i < len(vals); i++ {
+				for _, r := range *vals[i].Referrers() {
+					switch r := r.(type) {
+					case *ssa.BinOp:
+						if isEOFGlobal(r.X) || isEOFGlobal(r.Y) {
+							handled = true
+							why = "compared with io.EOF"
+						}
+					case *ssa.Phi:
+						vals = append(vals, r)
+					}
+				}
+				if len(vals) > 20 {
+					break
+				}
+			}
+			// (b) dominated by a short-peek test len(x) < n
+			for _, cd := range domConds(ld.Block()) {
+				if m, ok := asCmp(cd); ok && m.op == token.LSS {
+					if call, ok := origin(m.x).(*ssa.Call); ok {
+						if b, ok := call.Common().Value.(*ssa.Builtin); ok && b.Name() == "len" {
+							handled = true
+							why = "only after a peek came up short"
+						}
+					}
+				}
+			}
+			c.check(handled, "DLV-STICKYREAD", c.fname(f), "stored read error consulted with io.EOF handled explicitly", ld.Pos(), why,
+				"the scanner's stored read error is used as the result here without distinguishing io.EOF: when the reader delivers the last bytes together with io.EOF the stored error is already io.EOF although all data is available, so the outcome depends on how the input is delivered")
+		})
+	}
+	c.floor("DLV-STICKYREAD", 2)
+
 	// ---- Next/Peek share one look-ahead buffer: bytes peeked are handed out before new input
 	next := c.method("postscript", "scanner", "Next")
 	usesPeek := false
